@@ -39,8 +39,8 @@ def check(pid, engine, text, note, technique, design_ref):
 
 check(
     "C14", "fresh",
-    "Seeded search over sequences of public mutators (model parameters, rho, damping, Translate/Rotate/Symmetry, mesh.coord=, simu.mesh=, Bc_Init and re-adding conditions, time-scheme switches, Save_Iter/Set_Iter) interleaved with reads and solves on 1-3 live simulations sharing meshes and models; after every read the live result is compared with a brand-new simulation built from a declarative record of the final configuration. Injected linear-back-end failures inside Solve check that a failed solve leaves the state untouched and the retry equals the unfaulted result. Sampling, not enumeration: a clean batch is evidence, not proof.",
-    "Trusted: the reference builder (simkit.simlib/meshlib: constructor calls only, no deepcopy), NumPy/SciPy, and that a freshly constructed simulation is correct (that is what C01-C13 are about). Boundary-condition values are resolved at the time they are added (compared then against a fresh simulation) and replayed as resolved arrays afterwards.",
+    "Seeded search over sequences of public mutators (model parameters, rho, damping, Translate/Rotate/Symmetry, mesh.coord=, simu.mesh=, Bc_Init and re-adding conditions, time-scheme switches, Save_Iter/Set_Iter) interleaved with reads and solves on 1-3 live simulations sharing meshes and models; after every read the live result is compared with a brand-new simulation built from a declarative record of the final configuration. Injected linear-back-end failures inside Solve check that a failed solve leaves the state untouched and the retry equals the unfaulted result; injected allocation failures interrupt an assembly part-way and the repeated read must still equal the fresh build; scripted orderings (multi-mesh histories, 'discarded attempt': save, change the load, solve, Set_Iter(-1), read) are mixed into the random stream; a Beam frame actor (parameters, connections) is compared with a frame rebuilt from scratch. Sampling, not enumeration: a clean batch is evidence, not proof.",
+    "Trusted: the reference builder (simkit.simlib/meshlib: constructor calls only, no deepcopy), NumPy/SciPy, and that a freshly constructed simulation is correct (that is what C01-C13 are about). Boundary-condition values are resolved at the time they are added (compared then against a fresh simulation) and replayed as resolved arrays afterwards. Solutions of the BoundConstrain phase-field solver (scipy lsq_linear, interior method) are not compared digit-wise (its systems are).",
     "deterministic simulation: seeded op/fault sequences vs fresh-build reference model, ddmin-minimised replay files",
     "DESIGN.md section 5, C14",
 )
@@ -55,44 +55,44 @@ check(
 
 check(
     "C03", "asm",
-    "Seeded search over sequences of repeated assemblies interleaved with everything that moves the key of the cached element-to-CSR map (new element values, absent/present slots, real/complex values, Lagrange conditions and Dirichlet dofs changing Ndof, Bc_Init, mesh replacement, node renumbering, coordinate changes, Need_Update, Save_Iter/Set_Iter) on a harness-defined _Simu subclass (bulk + boundary + point groups, 1-2 problem types with different dofs per node in one object) and on Thermal / Elastic / PhaseField simulations. After every assembly K, C, M, F are compared (1e-12) with a dense loop summation of the very element arrays Construct_local_matrix_system returned for that call; shape, canonical CSR and complex dtype are checked; renumbering must give P K P^T. Probes count reused vs rebuilt maps.",
+    "Seeded search over sequences of repeated assemblies interleaved with everything that moves the key of the cached element-to-CSR map (new element values, absent/present slots, real/complex values, Lagrange conditions and Dirichlet dofs changing Ndof, Bc_Init, mesh replacement, node renumbering, coordinate changes, Need_Update, Save_Iter/Set_Iter) on a harness-defined _Simu subclass (bulk + boundary + point groups, 1-2 problem types with different dofs per node in one object) and on Thermal / Elastic / PhaseField simulations. After every assembly K, C, M, F are compared (1e-12) with a dense loop summation of the very element arrays Construct_local_matrix_system returned for that call; shape, canonical CSR and complex dtype are checked; renumbering must give P K P^T. A fault batch makes the k-th sparse construction of an assembly fail with MemoryError (assembly interrupted after some slots were built and maps cached): the repeated assembly must be exact and an interrupted Get_K_C_M_F must still ask for an update. Probes count reused vs rebuilt maps.",
     "Trusted: the dense loop reference (simkit.refs.ref_scatter_*), the wrapper that records the element arrays, NumPy. Staleness of Get_K_C_M_F() is not decided here (C14). The clause 'the solution is permuted by renumbering' is covered only through P K P^T (the solve itself is C04).",
     "deterministic simulation: seeded assembly/cache-key histories vs dense scatter-add reference, ddmin-minimised replay files",
     "DESIGN.md section 5, C03",
 )
 check(
     "C04", "bc",
-    "Seeded search over sequences of add_dirichlet (constants, nodal arrays, functions of position; overlapping node sets, duplicated dofs, any order), add_neumann / add_lineLoad / add_surfLoad / add_volumeLoad, generic multi-point Lagrange conditions, beam connections (fixed / hinged) on 2D and 3D frames, Bc_Init, back-end switches (direct, cg, bicg, gmres, lgmres) and Solve, for Elastic (2D/3D), Thermal, Beam (Euler-Bernoulli and Timoshenko), HyperElastic (Newton-incremental) and meshes with orphan nodes. After every Solve: constrained dofs hold the sum of their entries, multi-point constraints are satisfied, the solution equals a dense KKT reference solve of the very K and F the simulation assembled (kappa-scaled; 10*kappa*rtol for iterative back ends), the residual is orthogonal to the constraint null space, nothing is NaN. Injected back-end failures: the failed Solve leaves the solution untouched and the retry passes all of the above.",
+    "Seeded search over sequences of add_dirichlet (constants, nodal arrays, functions of position; overlapping node sets, duplicated dofs, any order), add_neumann / add_lineLoad / add_surfLoad / add_volumeLoad, generic multi-point Lagrange conditions, beam connections (fixed / hinged) on 2D and 3D frames, Bc_Init, back-end switches (direct, cg, bicg, gmres, lgmres) and Solve, for Elastic (2D/3D), Thermal, Beam (Euler-Bernoulli and Timoshenko), HyperElastic (Newton-incremental) and meshes with orphan nodes. After every Solve: constrained dofs hold the sum of their entries, multi-point constraints are satisfied, the solution equals a dense KKT reference solve of the very K and F the simulation assembled (kappa-scaled; 10*kappa*rtol for iterative back ends), the residual is orthogonal to the constraint null space, nothing is NaN. Newton actors: a brand-new simulation with the same conditions started at the returned solution must find a residual at the level of the Newton tolerances and must not move. Injected back-end failures (for Newton loops also placed relative to the end of the loop, whose length is measured on a discarded twin): the failed Solve leaves the solution untouched and the retry passes all of the above.",
     "Trusted: the dense reference (simkit.engines.bc._reference), NumPy, K and F as assembled (C01-C03, C09). Duplicated Dirichlet dofs are generated only without Lagrange conditions (the sum convention is documented for the elimination solver). Distributed loads are generated only on node sets that bound loaded elements. The bounded least-squares back end only accepts bounded problems and is exercised by the phase-field engine. Newton non-convergence with duplicated dofs is flagged only if the same problem with merged entries converges.",
     "deterministic simulation: seeded constraint-call/back-end/fault sequences vs dense KKT reference model, ddmin-minimised replay files",
     "DESIGN.md section 5, C04",
 )
 check(
     "C05", "dyn",
-    "Seeded search over time-stepping histories (Elastic with Rayleigh damping: newmark, hht, hht_newmark, midpoint, backward and forward Euler; Thermal and linear WeakForms: parabolic theta-scheme and hyperbolic schemes): arbitrary prior states, parameters drawn from the accepted ranges, step size over four decades, load/constraint changes, scheme or step-size switches between steps, Save_Iter/Set_Iter rollback, injected back-end failure + retry, virtual clock jumps. After every step: documented update relations (well-conditioned forms), K u_t + C v_t + M a_t = F on free dofs, constraints, equality with one generic dense reference integrator built from the documented scheme definitions (backward-error based tolerances), weights = derivatives of the evaluation-point states, and discrete energy (conserved by Newmark(1/4,1/2) and midpoint, non-increasing for backward Euler) in free undamped motion.",
-    "Trusted: the reference integrator (simkit.engines.dyn.ref_states/ref_step, transcribed from the AlgoType and Solver_Set_Parabolic_Algorithm docstrings), dense NumPy algebra, K/C/M/F as returned by Get_K_C_M_F (their correctness is C01-C03). Parabolic alpha is drawn from (0.05, 1]; alpha = 0 is documented but divides by zero and is not generated. HyperElastic's use of the weights is exercised under C18.",
+    "Seeded search over time-stepping histories (Elastic with Rayleigh damping: newmark, hht, hht_newmark, midpoint, backward and forward Euler; Thermal and linear WeakForms: parabolic theta-scheme and hyperbolic schemes): arbitrary prior states, parameters drawn from the accepted ranges, step size over four decades, load/constraint changes, scheme or step-size switches between steps, Save_Iter/Set_Iter rollback, injected back-end failure + retry, virtual clock jumps. After every step: documented update relations (well-conditioned forms), K u_t + C v_t + M a_t = F on free dofs, constraints, equality with one generic dense reference integrator built from the documented scheme definitions (backward-error based tolerances), weights = derivatives of the evaluation-point states, and discrete energy (conserved by Newmark(1/4,1/2) and midpoint, non-increasing for backward Euler) in free undamped motion. The incremental (Newton) path is driven by a HyperElastic actor under newmark / hht / hht_newmark / midpoint / backward Euler: update relations and R_int(u_t) + M a_t = f_ext on the free dofs (internal force from a brand-new static simulation assembled at u_t), with failed steps retried after a change of step size or scheme.",
+    "Trusted: the reference integrator (simkit.engines.dyn.ref_states/ref_step, transcribed from the AlgoType and Solver_Set_Parabolic_Algorithm docstrings), dense NumPy algebra, K/C/M/F as returned by Get_K_C_M_F (their correctness is C01-C03). Parabolic alpha is drawn from (0.05, 1]; alpha = 0 is documented but divides by zero and is not generated. The Newton actor uses the pointwise stress only (the other stress options are C18's).",
     "deterministic simulation: seeded step/parameter/state/fault histories vs generic reference integrator, ddmin-minimised replay files",
     "DESIGN.md section 5, C05",
 )
 
 check(
     "C11", "law",
-    "PARTIAL CLAIM - only the clause 'changing a parameter changes the law on next read'. Seeded search over sequences of parameter writes (scalars and per-element / per-Gauss-point fields), plane-stress toggles, Set_C (Voigt / Kelvin-Mandel) and reads of C, S, Get_sqrt_C_S, Walpole_Decomposition on Isotropic, TransverselyIsotropic, Orthotropic and Anisotropic laws (2D/3D, unnormalised orthogonal axes), observed by 0-2 real Elastic simulations. Oracle: a law freshly constructed with the final parameters returns byte-identical C and S; every write raises needUpdate on the law and on every observer; observers reassemble the K of the final law; on every reached state C = C^T, C.S = I, eig(C) > 0, sqrt(C)^2 = C (invariants on visited states only).",
+    "PARTIAL CLAIM - only the clause 'changing a parameter changes the law on next read'. Seeded search over sequences of parameter writes (scalars and per-element / per-Gauss-point fields), plane-stress toggles, Set_C (Voigt / Kelvin-Mandel) and reads of C, S, Get_sqrt_C_S, Walpole_Decomposition on Isotropic, TransverselyIsotropic, Orthotropic and Anisotropic laws (2D/3D, unnormalised orthogonal axes), observed by 0-2 real Elastic simulations. Oracle: a law freshly constructed with the final parameters returns byte-identical C and S; equal-value writes and writes the setter rejects are generated on purpose (they must neither cancel a pending change nor leave a trace); whenever a write leaves an update flag down the law and the observers' matrices are read at once and must be those of the final parameters; observers reassemble the K of the final law; on every reached state C = C^T, C.S = I, eig(C) > 0, sqrt(C)^2 = C (invariants on visited states only).",
     "NOT decided: SPD / inverse / plane-stress and plane-strain reductions / notation / rotation as statements over all admissible parameters (pure functions of the input; they are evaluated only on the states the histories reach). Parameter sets that a freshly built law rejects in the same way as the live one (differential rule) are counted, not flagged.",
     "deterministic simulation: seeded write/read histories vs freshly-built reference law, ddmin-minimised replay files",
     "DESIGN.md section 5, C11",
 )
 check(
     "C17", "pf",
-    "PARTIAL CLAIM - the irreversibility clauses. Seeded search over load / unload / reverse / shear / zero-load histories of the staggered phase-field solver for all 14 splits x {AT1, AT2} x {History, HistoryDamage, BoundConstrain} on isotropic, transversely isotropic and anisotropic materials (2D), with varying tolConv / maxIter / convergence option, Save_Iter, Set_Iter(i, resetAll) rollback and injected back-end failures inside the staggered loop. At every saved step: the stored history energy never decreases pointwise; for the two damage-based solvers the saved nodal damage never decreases; BoundConstrain keeps the damage within [previous damage, 1] (the bounded least-squares back end of C04); an all-zero load history leaves the damage at zero. On every visited strain state: sigma+ + sigma- = C:eps, psi+ + psi- = 1/2 eps:C:eps, all finite.",
+    "PARTIAL CLAIM - the irreversibility clauses. Seeded search over load / unload / reverse / shear / zero-load histories of the staggered phase-field solver for all 14 splits x {AT1, AT2} x {History, HistoryDamage, BoundConstrain} on isotropic, transversely isotropic and anisotropic materials (2D) and isotropic 3D bodies (hexahedra, tetrahedra, prisms), including rigid translations (strains at round-off level: the repeated-eigenvalue branches of the spectral decomposition), with varying tolConv / maxIter / convergence option, Save_Iter, Set_Iter(i, resetAll) rollback and injected back-end failures inside the staggered loop. At every saved step: the stored history energy never decreases pointwise; for the two damage-based solvers the saved nodal damage never decreases; BoundConstrain keeps the damage within [previous damage, 1] (the bounded least-squares back end of C04); an all-zero load history leaves the damage at zero. On every visited strain state: sigma+ + sigma- = C:eps, psi+ + psi- = 1/2 eps:C:eps, all finite.",
     "NOT decided: the split identities over all strain tensors (generic and degenerate) and the projector-vs-eigendecomposition comparison (pure). One open finding (AT1 with a vanishing positive energy gives a singular damage system and NaN) is steered around in the random batch by a damage-free clamp and reproduced from its own replay file.",
     "deterministic simulation: seeded load/solve/save/rollback/fault histories, monotonicity oracles over the recorded history, ddmin-minimised replay files",
     "DESIGN.md section 5, C17",
 )
 check(
     "C18", "hyper",
-    "PARTIAL CLAIM - the discrete energy-balance clause. Seeded trajectories of free motion (clamped or free bodies; static preload and/or random initial velocity) under the midpoint scheme with the gonzalez stress or the quadrature stress with energyTol = 1e-10, for NeoHookean, Mooney-Rivlin, Ciarlet-Geymonat and Saint-Venant-Kirchhoff laws, step-size changes between steps, Save_Iter / Set_Iter rollback and injected back-end failures inside a Newton iteration followed by a retry. Invariant after every step: |KE + W - E0| <= 1e-5 of the energy scale; a failed step leaves (u, v, a) untouched; rollback returns to the recorded energy. At the reference state each run starts from: W = 0, zero internal force, the unloaded static solve does not move the body.",
-    "NOT decided: stress = dW/de, tangent = d(stress)/de, objectivity, tangent/residual consistency of the nonlinear operators (pure). Runs with a non-converging or inverted step are discarded and counted. The mass matrix is the one the simulation assembles.",
+    "PARTIAL CLAIM - the discrete energy-balance clause and, on the visited states only, the Newton-system consistency clause. Seeded trajectories of free motion (clamped or free bodies; static preload and/or random initial velocity) under the midpoint scheme with the gonzalez stress, the adaptive quadrature stress (energyTol = 1e-10), fixed strain-path rules (1, 2, 3, 5 points: exactly conserving for Saint-Venant-Kirchhoff, whose dW/de is linear) and the pointwise stress (not conserving: consistency checks only), for NeoHookean, Mooney-Rivlin, Ciarlet-Geymonat and Saint-Venant-Kirchhoff laws, step-size changes between steps, Save_Iter / Set_Iter rollback and injected back-end failures inside a Newton iteration followed by a retry. Invariant after every step: |KE + W - E0| <= 1e-5 of the energy scale; a failed step leaves (u, v, a) untouched; rollback returns to the recorded energy. At trial states away from u_n along the trajectory: A = coefK K + coefC C + coefM M applied to a direction equals the central difference of the assembled residual (scheme, stress option and previous state included). At the reference state each run starts from: W = 0, zero internal force, the unloaded static solve does not move the body.",
+    "NOT decided: stress = dW/de, tangent = d(stress)/de, objectivity (pure); tangent/residual consistency is checked only for the assembled Newton system on visited states, not per operator over all inputs. Runs with a non-converging or inverted step are discarded and counted. The mass matrix is the one the simulation assembles.",
     "deterministic simulation: seeded dynamic trajectories with fault injection, conserved-quantity oracle, ddmin-minimised replay files",
     "DESIGN.md section 5, C18",
 )
@@ -105,7 +105,7 @@ check(
 )
 check(
     "C20", "mpi",
-    "N = 2..12 simulated MPI ranks in one process (fake mpi4py, stub PETSc), each a baton-passing thread holding one partition produced by the real Mesher._Mesh_Get_Meshes(N) on TRI3/TRI6/QUAD4/QUAD8/TETRA4/TETRA10/HEXA8/PRISM6 meshes; a seeded scheduler chooses which rank runs between collectives (with starvation of one rank as a fault). Phase 1 (set model): every element and node owned exactly once, ghost layer = every foreign element touching an owned node and nothing else, local connectivity = owned + ghost rows of the global one, numbering / coordinates / tags preserved, same split twice, Mesh.Merge with mapping restores element count, measure and coordinates. Phase 2: rows of each rank's K at its owned dofs equal the global K; the distributed solution equals a dense global solve on every rank; Calc_Energy and the sum of Calc_Reaction equal the global values on every rank; per-rank iteration files hold the rank's slice and merge to the full vector after _Gather; per-rank Save / Load_Simu; gathered mesh equals the unpartitioned one; all ranks execute the same collective sequence (otherwise DEADLOCK with per-rank logs).",
+    "N = 2..12 simulated MPI ranks in one process (fake mpi4py, stub PETSc), each a baton-passing thread holding one partition produced by the real Mesher._Mesh_Get_Meshes(N) on TRI3/TRI6/QUAD4/QUAD8/TETRA4/TETRA10/HEXA8/PRISM6 meshes; a seeded scheduler chooses which rank runs between collectives (with starvation of one rank and abort + restart of the whole job from the per-rank files as faults); in 40 % of the runs the Mesher that splits the mesh has split another model into another number of parts before. Phase 1 (set model): every element and node owned exactly once, ghost layer = every foreign element touching an owned node and nothing else, local connectivity = owned + ghost rows of the global one, numbering / coordinates / tags preserved, same split twice, Mesh.Merge with mapping restores element count, measure and coordinates. Phase 2: rows of each rank's K at its owned dofs equal the global K; the distributed solution equals a dense global solve on every rank; Calc_Energy and the sum of Calc_Reaction equal the global values on every rank; per-rank iteration files hold the rank's slice and merge to the full vector after _Gather; per-rank Save / Load_Simu; gathered mesh equals the unpartitioned one; all ranks execute the same collective sequence (otherwise DEADLOCK with per-rank logs).",
     "mpi4py and petsc4py are stubs (no real parallel execution, no real PETSc back end): what runs for real is EasyFEA's partitioner and parallel bookkeeping. The serial reference is EasyFEA's own serial assembly on the unpartitioned mesh of the same gmsh model. Merge of arbitrary coincident/disjoint mesh lists is only exercised on the partitions themselves.",
     "deterministic simulation of a multi-rank world: seeded rank scheduling over rendez-vous collectives vs serial reference model, ddmin-minimised replay files",
     "DESIGN.md section 5, C20",
